@@ -2,7 +2,7 @@
    without action tokens the pass deletes nothing (C05: a line that was
    blank in the source still separates paragraphs; C06). *)
 From Coq Require Import Lia.
-From YV Require Import PyBase PyBaseProofs Token Rpal.
+From YV Require Import PyBase PyBaseProofs ShellMap ShellMapProofs Token Rpal.
 Open Scope Z_scope.
 
 Section RpalProofs.
@@ -518,5 +518,242 @@ Section RpalProofs.
         destruct He as (t & Et & Hin). subst e. rewrite e_tok_eval.
         rewrite Forall_forall in HEt. apply HEt, Hin.
       + constructor; [intros [Hk|Hk]; discriminate | constructor].
+  Qed.
+
+  (* ================================================================ *)
+  (*  tokens of visible text on one line pass untouched (C02)           *)
+  (* ================================================================ *)
+  (* a token is solid: no line break in its text, not blank *)
+  Definition solid (t : tok) : bool :=
+    negb (has_nl (txt t)) && negb (blank_str is_space (txt t)).
+  Definition sols (l : list etok) : list tok := filter solid (map e_tok l).
+  (* line breaks stand in white space only; action and language tokens
+     carry no text *)
+  Definition G (t : tok) : Prop :=
+    (has_nl (txt t) = true -> blank_str is_space (txt t) = true) /\ E0 t.
+  Definition F2 (e : etok) : Prop :=
+    (e_blank e = true \/ e_start e = true \/ e_end e = true) -> solid (e_tok e) = false.
+
+  Lemma sols_app a b : sols (a ++ b) = sols a ++ sols b.
+  Proof. unfold sols. rewrite map_app. apply filter_app. Qed.
+
+  Lemma solid_nil t : txt t = [] -> solid t = false.
+  Proof. intros E. unfold solid. rewrite E. reflexivity. Qed.
+  Lemma solid_blank t : blank_str is_space (txt t) = true -> solid t = false.
+  Proof. intros E. unfold solid. rewrite E. apply Bool.andb_false_r. Qed.
+  Lemma solid_nl t : has_nl (txt t) = true -> solid t = false.
+  Proof. intros E. unfold solid. rewrite E. reflexivity. Qed.
+
+  Lemma F2_eval t : G t -> F2 (eval t).
+  Proof.
+    intros [Hg He]. unfold F2, Rpal.eval.
+    destruct (is_action t) eqn:Ea; cbn [e_tok e_blank e_start e_end].
+    - intros _. apply solid_nil. apply He. left. exact Ea.
+    - intros [H|[H|H]]; apply andb_true_iff in H; destruct H as [H1 H2].
+      + apply solid_blank. exact H2.
+      + apply solid_nl. exact H1.
+      + apply solid_nl. exact H1.
+  Qed.
+  Lemma F2_sentinel p : F2 (with_start (eval (TextT p []))) /\ F2 (with_end (eval (TextT p []))).
+  Proof. split; intros _; reflexivity. Qed.
+
+  Lemma blank_skipn n x : blank_str is_space x = true -> blank_str is_space (skipn n x) = true.
+  Proof.
+    unfold blank_str. intros H. rewrite forallb_forall in *. intros c Hc. apply H.
+    rewrite <- (firstn_skipn n x). apply in_or_app. right. exact Hc.
+  Qed.
+
+  Lemma has_nl_false_find x : has_nl x = false -> find_index (N.eqb c_nl) x = None.
+  Proof.
+    unfold has_nl. induction x as [|c x IH]; [reflexivity|]. cbn [existsb find_index].
+    destruct (N.eqb c_nl c) eqn:E; cbn [orb]; intros H; [discriminate H|].
+    rewrite (IH H). reflexivity.
+  Qed.
+
+  (* the cut second token stays harmless *)
+  Lemma G_cut t :
+    G t ->
+    let t2' := match find_index (N.eqb c_nl) (txt t) with
+               | Some i => let t' := set_txt t (skipn (S i) (txt t)) in
+                           if pfix t then t' else set_pos t' (pos t + Z.of_nat (S i))
+               | None => set_pos (set_txt t []) (pos t + Z.of_nat (length (txt t)))
+               end in
+    G t2' /\ solid t2' = false.
+  Proof.
+    intros [Hg He]. cbv zeta.
+    assert (Hk : forall s p, is_action (set_pos (set_txt t s) p) = is_action t /\
+                              is_lang (set_pos (set_txt t s) p) = is_lang t /\
+                              is_action (set_txt t s) = is_action t /\
+                              is_lang (set_txt t s) = is_lang t) by (intros; repeat split).
+    destruct (has_nl (txt t)) eqn:Enl.
+    - (* blank text: every suffix is blank *)
+      specialize (Hg eq_refl).
+      destruct (find_index (N.eqb c_nl) (txt t)) as [i|].
+      + assert (Hb := blank_skipn (S i) _ Hg).
+        destruct (pfix t).
+        * split; [split; [intros _; exact Hb|]|apply solid_blank; exact Hb].
+          intros HX. cbn [txt set_txt]. rewrite (He HX). destruct i; reflexivity.
+        * split; [split; [intros _; exact Hb|]|apply solid_blank; exact Hb].
+          intros HX. cbn [txt set_txt set_pos]. rewrite (He HX). destruct i; reflexivity.
+      + split; [split; [intros _; reflexivity | intros _; reflexivity] | reflexivity].
+    - rewrite (has_nl_false_find _ Enl).
+      split; [split; [intros _; reflexivity | intros _; reflexivity] | reflexivity].
+  Qed.
+
+  Lemma rfind_has_nl x i :
+    rfind_index (N.eqb c_nl) x = Some i -> has_nl (firstn (S i) x) = true.
+  Proof.
+    intros H. pose proof (rfind_index_spec (N.eqb c_nl) x) as Sp. rewrite H in Sp.
+    destruct Sp as (Hi & (c & Hc & Fc) & _). unfold has_nl. apply existsb_exists.
+    exists c. split; [|exact Fc]. apply nth_error_In with (n := i).
+    rewrite nth_error_firstn_lt by lia. exact Hc.
+  Qed.
+
+  Lemma blank_not_solid l :
+    Forall (fun e => e_blank e = true) l -> Forall F2 l -> sols l = [].
+  Proof.
+    induction 1 as [|e l He Hl IHl]; intros HH; [reflexivity|].
+    inversion HH as [|? ? Fe Fl]; subst. unfold sols in *. cbn [map filter].
+    rewrite (Fe (or_introl He)). apply IHl. exact Fl.
+  Qed.
+
+  Lemma rpal_loop_solid : forall fuel pending out res,
+    rpal_loop fuel pending out = Ok res ->
+    Forall F2 pending -> Forall (fun e => G (e_tok e)) pending ->
+    sols res = sols out ++ sols pending.
+  Proof.
+    induction fuel as [|k IH]; intros pending out res H HF HE; [discriminate|].
+    destruct pending as [|t p]; cbn [Rpal.rpal_loop] in H.
+    { inversion H; subst. unfold sols at 3. simpl. rewrite app_nil_r. reflexivity. }
+    inversion HF as [|? ? Ft Fp]; subst. inversion HE as [|? ? Et Ep]; subst.
+    destruct (negb (e_start t)) eqn:Est.
+    { apply IH in H; [|exact Fp | exact Ep]. rewrite H, sols_app, <- app_assoc.
+      change (t :: p) with ([t] ++ p). rewrite (sols_app [t] p). reflexivity. }
+    apply negb_false_iff in Est.
+    destruct (collect p [t]) as [[buf b] rest] eqn:Ec.
+    pose proof (collect_struct _ _ _ _ _ Ec) as (pre & Hpre & Hcases).
+    pose proof (collect_app _ _ _ _ _ Ec) as [Eb _]. simpl in Eb.
+    assert (HFb : Forall F2 (buf ++ rest)) by (rewrite Eb; exact HF).
+    assert (HEb : Forall (fun e => G (e_tok e)) (buf ++ rest)) by (rewrite Eb; exact HE).
+    apply Forall_app in HFb. destruct HFb as [HFbuf HFrest].
+    apply Forall_app in HEb. destruct HEb as [HEbuf HErest].
+    replace (sols (t :: p)) with (sols buf ++ sols rest) by (rewrite <- sols_app, Eb; reflexivity).
+    destruct (rev buf) as [|lst rb] eqn:Er; [discriminate|].
+    assert (Ebuf : buf = rev rb ++ [lst]).
+    { rewrite <- (rev_involutive buf), Er. reflexivity. }
+    assert (Glst : G (e_tok lst)).
+    { rewrite Ebuf in HEbuf. apply Forall_app in HEbuf. destruct HEbuf as [_ HH].
+      inversion HH; assumption. }
+    destruct (b && Nat.ltb 1 (length buf) && existsb (fun e => is_action (e_tok e)) buf) eqn:Ecnd.
+    - apply andb_true_iff in Ecnd. destruct Ecnd as [Ecnd _].
+      apply andb_true_iff in Ecnd. destruct Ecnd as [Hb Hlt]. apply Nat.ltb_lt in Hlt. subst b.
+      (* nothing in buf is solid *)
+      assert (Hbuf0 : sols buf = []).
+      { assert (St : solid (e_tok t) = false) by (apply Ft; right; left; exact Est).
+        simpl in Hcases. destruct Hcases as [(E1 & E2 & E3)|(x & E1 & E2 & E3)].
+        - rewrite E1 in HFbuf |- *. inversion HFbuf as [|? ? _ HH]; subst.
+          change (t :: pre) with ([t] ++ pre). rewrite sols_app.
+          rewrite (blank_not_solid pre Hpre HH). unfold sols. cbn [map filter]. rewrite St.
+          reflexivity.
+        - rewrite E1 in HFbuf |- *. inversion HFbuf as [|? ? _ HH]; subst.
+          apply Forall_app in HH. destruct HH as [HHp HHx].
+          inversion HHx as [|? ? Fx _]; subst.
+          change (t :: pre ++ [x]) with ([t] ++ pre ++ [x]). rewrite !sols_app.
+          rewrite (blank_not_solid pre Hpre HHp). unfold sols. cbn [map filter].
+          rewrite St, (Fx (or_intror (or_intror (E3 eq_refl)))). reflexivity. }
+      match type of H with rpal_loop k (?s :: eval ?t2 :: rest) (out ++ eval ?t1 :: ?lg) = _ =>
+        set (t2' := t2) in *; set (t1' := t1) in *; set (langs := lg) in * end.
+      assert (GS : G t2' /\ solid t2' = false) by (exact (G_cut (e_tok lst) Glst)).
+      destruct GS as [G2 S2].
+      assert (S1 : solid t1' = false).
+      { unfold t1'. destruct (rfind_index (N.eqb c_nl) (txt (e_tok t))) as [i|] eqn:Erf.
+        - apply solid_nl. cbn [txt set_txt]. apply rfind_has_nl. exact Erf.
+        - apply solid_nil. reflexivity. }
+      assert (Slangs : sols langs = []).
+      { unfold langs. clear - HEbuf. induction buf as [|e l IHl]; [reflexivity|].
+        inversion HEbuf as [|? ? He Hl]; subst. cbn [filter].
+        destruct (is_lang (e_tok e)) eqn:El; [|apply IHl; exact Hl].
+        unfold sols. cbn [map filter]. destruct He as [_ He].
+        rewrite (solid_nil _ (He (or_intror El))). apply IHl. exact Hl. }
+      apply IH in H.
+      + rewrite H, !sols_app.
+        assert (A1 : sols (eval t1' :: langs) = []).
+        { change (eval t1' :: langs) with ([eval t1'] ++ langs). rewrite sols_app, Slangs.
+          unfold sols. cbn [map filter]. rewrite e_tok_eval, S1. reflexivity. }
+        assert (A2 : sols (with_start (eval (TextT (pos t2') [])) :: eval t2' :: rest) = sols rest).
+        { change (with_start (eval (TextT (pos t2') [])) :: eval t2' :: rest)
+            with ([with_start (eval (TextT (pos t2') [])); eval t2'] ++ rest).
+          rewrite sols_app. unfold sols at 1. cbn [map filter]. rewrite e_tok_eval, S2.
+          reflexivity. }
+        rewrite A1, A2, Hbuf0, app_nil_r. reflexivity.
+      + constructor; [apply F2_sentinel|]. constructor; [apply F2_eval; exact G2 | exact HFrest].
+      + constructor; [split; [intros _; reflexivity | intros _; reflexivity]|].
+        constructor; [rewrite e_tok_eval; exact G2 | exact HErest].
+    - destruct (Nat.ltb 1 (length buf)).
+      + apply IH in H.
+        * rewrite H, !sols_app.
+          assert (A1 : sols (eval (e_tok lst) :: rest) = sols [lst] ++ sols rest).
+          { change (eval (e_tok lst) :: rest) with ([eval (e_tok lst)] ++ rest).
+            rewrite sols_app. unfold sols at 1 3. cbn [map filter]. rewrite e_tok_eval.
+            reflexivity. }
+          assert (A2 : sols buf = sols (removelast buf) ++ sols [lst]).
+          { rewrite Ebuf at 1 2. rewrite removelast_last, sols_app. reflexivity. }
+          rewrite A1, A2, <- !app_assoc. reflexivity.
+        * constructor; [apply F2_eval; exact Glst | exact HFrest].
+        * constructor; [rewrite e_tok_eval; exact Glst | exact HErest].
+      + apply IH in H; [|exact HFrest | exact HErest].
+        rewrite H, sols_app, <- app_assoc. reflexivity.
+  Qed.
+
+  (* every token of visible text that stands on one line leaves the pass as
+     it entered: same text, same position, same order *)
+  Theorem rpal_keeps_solid tokens r :
+    Forall G tokens ->
+    remove_pure_action_lines is_space tokens = Ok r ->
+    filter solid r = filter solid tokens.
+  Proof.
+    intros HG H. unfold remove_pure_action_lines in H.
+    set (toks := filter _ tokens) in *.
+    set (first := with_start (eval (TextT 0 []))) in *.
+    set (last := with_end (eval (TextT _ []))) in *.
+    destruct (rpal_loop _ (first :: map eval toks ++ [last]) []) as [res| | |] eqn:El;
+      try discriminate.
+    cbn [rbind] in H. inversion H; subst r. clear H.
+    assert (HGt : Forall G toks).
+    { apply Forall_forall. intros t Ht. apply filter_In in Ht. rewrite Forall_forall in HG.
+      apply HG, Ht. }
+    apply rpal_loop_solid in El.
+    - assert (Hout : forall l, filter solid (filter keep_out (map e_tok l)) = sols l).
+      { induction l as [|e l IHl]; [reflexivity|]. unfold sols in *. cbn [map filter].
+        unfold keep_out at 1. destruct (txt (e_tok e)) eqn:Et.
+        - rewrite (solid_nil _ Et). destruct (is_lang (e_tok e)); cbn [filter];
+            rewrite ?(solid_nil _ Et); exact IHl.
+        - cbn [filter]. rewrite IHl. reflexivity. }
+      rewrite Hout, El.
+      change (first :: map eval toks ++ [last]) with ([first] ++ map eval toks ++ [last]).
+      rewrite !sols_app.
+      assert (Z0 : sols [] = []) by reflexivity.
+      assert (Z1 : sols [first] = []) by reflexivity.
+      assert (Z2 : sols [last] = []) by reflexivity.
+      rewrite Z0, Z1, Z2. cbn [app]. rewrite app_nil_r.
+      assert (Hm : sols (map eval toks) = filter solid toks).
+      { unfold sols. rewrite map_map. rewrite (map_ext _ (fun x => x) e_tok_eval), map_id.
+        reflexivity. }
+      rewrite Hm. unfold toks. clear. induction tokens as [|t l IHl]; [reflexivity|].
+      cbn [filter]. destruct (txt t) eqn:Et.
+      + rewrite (solid_nil _ Et). destruct (is_action t || is_lang t); cbn [filter];
+          rewrite ?(solid_nil _ Et); exact IHl.
+      + cbn [filter]. rewrite IHl. reflexivity.
+    - constructor; [apply F2_sentinel|]. apply Forall_app. split.
+      + apply Forall_forall. intros e He. apply in_map_iff in He.
+        destruct He as (t & Et & Hin). subst e. apply F2_eval.
+        rewrite Forall_forall in HGt. apply HGt, Hin.
+      + constructor; [apply F2_sentinel | constructor].
+    - constructor; [split; [intros _; reflexivity | intros _; reflexivity]|].
+      apply Forall_app. split.
+      + apply Forall_forall. intros e He. apply in_map_iff in He.
+        destruct He as (t & Et & Hin). subst e. rewrite e_tok_eval.
+        rewrite Forall_forall in HGt. apply HGt, Hin.
+      + constructor; [split; [intros _; reflexivity | intros _; reflexivity] | constructor].
   Qed.
 End RpalProofs.
